@@ -242,6 +242,21 @@ def _own_returns(body):
     return out
 
 
+def _tail_return(body):
+    """the `return` in tail position of a statement list: its last statement, or the tail of the body of a last `try` without `else`
+    whose handlers all end by raising (then `finally` runs and control leaves the list either way), or of a last `with`"""
+    if not body:
+        return None
+    last = body[-1]
+    if isinstance(last, ast.Return):
+        return last
+    if isinstance(last, ast.Try) and not last.orelse and all(h.body and isinstance(h.body[-1], ast.Raise) for h in last.handlers):
+        return _tail_return(last.body)
+    if isinstance(last, ast.With):
+        return _tail_return(last.body)
+    return None
+
+
 def _replace_returns(stmts, make):
     """replace every own `return E` in the statement list by the statements make(E)"""
     def rec(lst):
@@ -311,7 +326,57 @@ def _fold_returns(stmts, env=None):
 
 
 def _is_pure_attr_chain(e):
-    return all(isinstance(x, (ast.Name, ast.Attribute, ast.Constant, ast.Load)) for x in ast.walk(e))
+    """names, attribute chains, constants, subscripts of those and `.index(<constant>)` of a sequence: reading them later (or twice)
+    gives what reading them now gives, as long as nothing they read is re-bound in between (checked by the caller)"""
+    for x in ast.walk(e):
+        if isinstance(x, (ast.Name, ast.Attribute, ast.Constant, ast.Load, ast.Subscript, ast.BinOp, ast.Add, ast.Sub)):
+            continue
+        if isinstance(x, ast.Call) and isinstance(x.func, ast.Attribute) and x.func.attr == 'index' and len(x.args) == 1 and not x.keywords \
+                and isinstance(x.args[0], ast.Constant):
+            continue
+        return False
+    return True
+
+
+def _first_evaluated(root, target):
+    """is `target` (a call inside the expression root) evaluated before anything else in root that could have an effect?  Then
+    computing it in a statement of its own just before is the same run."""
+    simple = lambda e: all(isinstance(x, (ast.Name, ast.Attribute, ast.Constant, ast.Load)) for x in ast.walk(e))
+
+    def path_to(node):
+        if node is target:
+            return [node]
+        for ch in ast.iter_child_nodes(node):
+            p_ = path_to(ch)
+            if p_:
+                return [node] + p_
+        return None
+    path = path_to(root)
+    if not path:
+        return False
+    for parent, child in zip(path, path[1:]):
+        if isinstance(parent, ast.Call):
+            order = [parent.func] + list(parent.args) + list(parent.keywords)
+        elif isinstance(parent, ast.keyword):
+            order = [parent.value]
+        elif isinstance(parent, ast.BinOp):
+            order = [parent.left, parent.right]
+        elif isinstance(parent, ast.UnaryOp) and not isinstance(parent.op, ast.Not):
+            order = [parent.operand]
+        elif isinstance(parent, (ast.Tuple, ast.List)):
+            order = list(parent.elts)
+        elif isinstance(parent, ast.Starred):
+            order = [parent.value]
+        elif isinstance(parent, ast.Attribute):
+            order = [parent.value]
+        elif isinstance(parent, ast.Subscript):
+            order = [parent.value, parent.slice]
+        else:
+            return False            # conditional or deferred evaluation (and/or, if-expression, lambda, comprehension)
+        idx = next((i for i, x in enumerate(order) if x is child), None)
+        if idx is None or not all(simple(x.value if isinstance(x, ast.keyword) else x) for x in order[:idx]):
+            return False
+    return True
 
 
 def _inline_new_helpers(tree, ref_funcs, done):
@@ -397,8 +462,10 @@ def _inline_new_helpers(tree, ref_funcs, done):
                 if f is helper:
                     continue
                 for holder in [f] + [n for n in _own(f) if not isinstance(n, FUNC)]:
-                    for field in ('body', 'orelse', 'finalbody'):
-                        lst = getattr(holder, field, None)
+                    lists = [getattr(holder, field, None) for field in ('body', 'orelse', 'finalbody')]
+                    if isinstance(holder, ast.Try):
+                        lists += [h.body for h in holder.handlers]
+                    for lst in lists:
                         if not (isinstance(lst, list) and lst and isinstance(lst[0], ast.stmt)):
                             continue
                         for i, s in enumerate(lst):
@@ -409,32 +476,40 @@ def _inline_new_helpers(tree, ref_funcs, done):
                                 call = s.value
                             if call is not None and call.func is ref:
                                 site = (f, lst, i, s, call)
+                            hoist = None
                             if isinstance(s, ast.If):
                                 t = s.test
                                 while isinstance(t, ast.UnaryOp) and isinstance(t.op, ast.Not):
                                     t = t.operand
                                 if isinstance(t, ast.Call) and t.func is ref:
-                                    # `if helper(...):` - the call is evaluated first: hoist it into a fresh local and inline that assignment
-                                    tmp = '_%s__val' % helper.name.lstrip('_')
-                                    asg = ast.Assign(targets=[ast.Name(id=tmp, ctx=ast.Store())], value=t)
-                                    ast.copy_location(asg, s)
-                                    ast.fix_missing_locations(asg)
+                                    hoist = ('test', t)     # `if helper(...):` - the call is evaluated first
+                            elif isinstance(s, ast.Raise) and isinstance(s.exc, ast.Call) and s.exc.func is ref and s.cause is None:
+                                hoist = ('exc', s.exc)      # `raise helper(...)` - the call is evaluated, then its value raised
+                            elif isinstance(s, ast.AugAssign) and isinstance(s.target, ast.Name) and isinstance(s.value, ast.Call) \
+                                    and s.value.func is ref:
+                                hoist = ('value', s.value)  # `xs += helper(...)` - a local on the left cannot change during the call
+                            elif call is None and isinstance(s, (ast.Assign, ast.AugAssign, ast.Expr, ast.Return)) and s.value is not None \
+                                    and (not isinstance(s, ast.AugAssign) or isinstance(s.target, ast.Name)):
+                                inner = [c_ for c_ in ast.walk(s.value) if isinstance(c_, ast.Call) and c_.func is ref]
+                                if inner and _first_evaluated(s.value, inner[0]):
+                                    hoist = ('value', inner[0])     # `xs += reversed(helper(...))`: nothing else runs before the call
+                            if hoist is not None:
+                                # hoist the call into a fresh local and inline that assignment
+                                fld, t = hoist
+                                tmp = '_%s__val' % helper.name.lstrip('_')
+                                asg = ast.Assign(targets=[ast.Name(id=tmp, ctx=ast.Store())], value=t)
+                                ast.copy_location(asg, s)
+                                ast.fix_missing_locations(asg)
 
-                                    class _R(ast.NodeTransformer):
-                                        def visit_Call(self, node, t=t, tmp=tmp):
-                                            if node is t:
-                                                return ast.copy_location(ast.Name(id=tmp, ctx=ast.Load()), node)
-                                            return self.generic_visit(node)
-                                    s.test = _R().visit(s.test)
-                                    lst.insert(i, asg)
-                                    site = (f, lst, i, asg, t)
-                                    break
-                    if isinstance(holder, ast.Try):
-                        for h in holder.handlers:
-                            for i, s in enumerate(h.body):
-                                call = s.value if isinstance(s, (ast.Assign, ast.Return, ast.Expr)) and isinstance(getattr(s, 'value', None), ast.Call) else None
-                                if call is not None and call.func is ref and (not isinstance(s, ast.Assign) or len(s.targets) == 1):
-                                    site = (f, h.body, i, s, call)
+                                class _R(ast.NodeTransformer):
+                                    def visit_Call(self, node, t=t, tmp=tmp):
+                                        if node is t:
+                                            return ast.copy_location(ast.Name(id=tmp, ctx=ast.Load()), node)
+                                        return self.generic_visit(node)
+                                setattr(s, fld, _R().visit(getattr(s, fld)))
+                                lst.insert(i, asg)
+                                site = (f, lst, i, asg, t)
+                                break
             if site is None:
                 return False
             caller, lst, i, stmt, call = site
@@ -489,6 +564,7 @@ def _inline_new_helpers(tree, ref_funcs, done):
             body = [ren.visit(s) for s in body]
             rets = _own_returns(body)
             tail_only = len(rets) == 1 and body[-1] is rets[0]
+            nested_tail = len(rets) == 1 and not tail_only and _tail_return(body) is rets[0] and not isinstance(stmt, ast.Return)
             falls_off = not isinstance(body[-1], (ast.Return, ast.Raise))
             new = list(pre)
             if isinstance(stmt, ast.Return):
@@ -503,6 +579,17 @@ def _inline_new_helpers(tree, ref_funcs, done):
                         new.append(ast.Assign(targets=[copy.deepcopy(stmt.targets[0])], value=val))
                 else:
                     new.append(ast.Expr(value=val))
+            elif nested_tail:
+                # the one return closes a try/with that closes the body: binding the value there and leaving the block normally is
+                # the same run (the finally clause runs between the evaluation and the next statement in both forms)
+                def make_plain(value, stmt=stmt):
+                    v = value if value is not None else ast.Constant(value=None)
+                    if isinstance(stmt, ast.Assign):
+                        if ast.unparse(stmt.targets[0]) == ast.unparse(v):
+                            return [ast.Pass()]
+                        return [ast.Assign(targets=[copy.deepcopy(stmt.targets[0])], value=v)]
+                    return [ast.Expr(value=v)]
+                new += _replace_returns(body, make_plain)
             else:
                 def make(value, stmt=stmt):
                     v = value if value is not None else ast.Constant(value=None)
@@ -770,6 +857,22 @@ class _CanonTests(ast.NodeTransformer):
         return node
 
 
+class _CanonCollections(ast.NodeTransformer):
+    """`set(<generator>)`, `list(<generator>)` and `dict((k, v) for ...)` read as the comprehension they are"""
+    def visit_Call(self, node):
+        self.generic_visit(node)
+        if isinstance(node.func, ast.Name) and node.func.id in ('set', 'list', 'dict') and len(node.args) == 1 and not node.keywords \
+                and isinstance(node.args[0], ast.GeneratorExp):
+            g = node.args[0]
+            if node.func.id == 'set':
+                return ast.copy_location(ast.SetComp(elt=g.elt, generators=g.generators), node)
+            if node.func.id == 'list':
+                return ast.copy_location(ast.ListComp(elt=g.elt, generators=g.generators), node)
+            if isinstance(g.elt, ast.Tuple) and len(g.elt.elts) == 2 and not any(isinstance(x, ast.Starred) for x in g.elt.elts):
+                return ast.copy_location(ast.DictComp(key=g.elt.elts[0], value=g.elt.elts[1], generators=g.generators), node)
+        return node
+
+
 class _Flatten(ast.NodeTransformer):
     def visit_BoolOp(self, node):
         self.generic_visit(node)
@@ -784,6 +887,7 @@ class _Flatten(ast.NodeTransformer):
 
 
 def canonicalise_comparisons(tree):
+    _CanonCollections().visit(tree)
     _CanonTests().visit(tree)
     _Flatten().visit(tree)
     _CanonCompare().visit(tree)
